@@ -220,7 +220,7 @@ class PyLoop:
             self.unrecognised.append(f'read at ip+{delta} ({space} space): {ast.unparse(where)}')
             return []
         if root == 'f':
-            return []          # read half of the flip's read-modify-write
+            return ['READ_TARGET'] if delta == 0 and space == 'word' else []          # read half of the flip's read-modify-write
         if root == 'in':
             return []
         self.unrecognised.append(f'program-memory read with unclassified address: {ast.unparse(where)}')
